@@ -219,6 +219,7 @@ class Check:
             cmd = ["cmake", "-G", "Ninja", "-S", REPO, "-B", bdir,
                    "-DUSE_MPI=OFF", "-DBUILD_TESTING=OFF",
                    "-DCMAKE_INSTALL_PREFIX=" + os.path.join(self.scratch, "prefix"),
+                   "-DCMAKE_C_COMPILER_LAUNCHER=" + os.path.join(VERIF, "tools", "cc-nowerror.sh"),
                    "-Wno-dev"] + FLAVOURS[flavour]
             rc, out = sh(cmd)
             if rc != 0:
